@@ -279,7 +279,7 @@ Definition phase_ok (h : thread) (p : phase) : Prop :=
   | TRx RH | TRx RHL => p = PHook
   | TTx x =>
       match t_pc x with
-      | XH | XHL => p = PHook
+      | XHU | XHL => p = PHook
       | X6 | X7 => p = P1
       | X8 | X9 => p = P2 (t_snap x)
       | _ => True
